@@ -55,9 +55,11 @@ def tables(cfg, d):
     offs = {}
     for tr in cfg['tr']:
         name = ''.join(tr['name'])
+        offs[''.join(tr['cat'])] = tr['off']
+        if not tr.get('intab', True):
+            continue        # no line for offset + id in the tracer table
         rows[tr['id'] + tr['off']] = (name, 2.0 ** tr['scale2'],
                                       name + '_u')
-        offs[''.join(tr['cat'])] = tr['off']
     with open(os.path.join(d, 'tracerinfo.dat'), 'w') as f:
         f.write('# tracerinfo generated for verification\n')
         for tid in sorted(rows):
@@ -139,7 +141,8 @@ def run_case(arg):
         tunits = tables(cfg, tmp)
         tr = {'tid': tid, 'kind': 'roundtrip', 'cfg': cfg, 'nbytes': len(data),
               'expbytes': item['bytes'], 'refwords': words(data),
-              'tableunits': tunits}
+              'tableunits': tunits,
+              'headerunits': [''.join(t['unit']) for t in cfg['tr']]}
         raw = {}
 
         def rd_raw():
@@ -226,7 +229,13 @@ def run(tier):
     if not items:
         raise Machinery('BpchLayout_MC emitted nothing')
     if tier == 'quick':
-        items = rnd.sample(items, min(len(items), 60))
+        # a sample of every tracer list (categories, offsets, table lines)
+        groups = {}
+        for it in items:
+            groups.setdefault(str(it['cfg']['tr']), []).append(it)
+        items = []
+        for k in sorted(groups):
+            items += rnd.sample(groups[k], min(len(groups[k]), 12))
     args = [(i + 1, it) for i, it in enumerate(items)]
     res = run_cases(run_case, args, timeout=120, per_child=10, chunksize=1)
     traces = []
